@@ -55,9 +55,9 @@ def main():
     verbose = "-v" in args
     ids = [a for a in args if not a.startswith("-")]
     if not ids:
-        ids = sorted(os.listdir(os.path.join(VERIF, "seeded")))
+        ids = sorted(x for x in os.listdir(os.path.join(VERIF, "seeded")) if os.path.isdir(os.path.join(VERIF, "seeded", x)))
     else:
-        ids = [m for m in sorted(os.listdir(os.path.join(VERIF, "seeded"))) if any(m.startswith(i) for i in ids)]
+        ids = [m for m in sorted(os.listdir(os.path.join(VERIF, "seeded"))) if os.path.isdir(os.path.join(VERIF, "seeded", m)) and any(m.startswith(i) for i in ids)]
     avail = available()
     jobs = []
     if "--defects" in args:
